@@ -59,6 +59,20 @@ fn main() {
                 None => 2,
             }
         }
+        Some("minimise") => {
+            let tier = if args.get(3).map(|s| s.as_str()) == Some("thorough") {
+                Tier::Thorough
+            } else {
+                Tier::Quick
+            };
+            match (
+                specs.iter().find(|s| Some(s.prop) == args.get(2).map(|s| s.as_str())),
+                args.get(4),
+            ) {
+                (Some(spec), Some(dir)) => driver::minimise_child(spec, tier, dir),
+                _ => 2,
+            }
+        }
         Some("replay") => match args.get(2) {
             Some(p) => driver::replay(&specs, p),
             None => usage(),
